@@ -234,7 +234,10 @@ func (c *FnCtx) execBuiltin(bc *blockCtx, b *ssa.Builtin, cc *ssa.CallCommon, ar
 			return mkInt("(gstr.len "+args[0].T+")", it)
 		case KRef:
 			if mt, ok := cc.Args[0].Type().Underlying().(*types.Map); ok {
-				return mkInt(sIte("(= "+args[0].T+" 0)", "0", c.mapCard(bc.st, mt, args[0].T)), it)
+				card := c.mapCard(bc.st, mt, args[0].T)
+				// a map of cardinality 0 has no key
+				c.sc.assert(sImp("(= "+card+" 0)", "(forall ((k!c Int)) (not "+c.mapPresent(bc.st, mt, args[0].T, "k!c")+"))"))
+				return mkInt(sIte("(= "+args[0].T+" 0)", "0", card), it)
 			}
 			if _, ok := cc.Args[0].Type().Underlying().(*types.Chan); ok {
 				return c.freshVal(bc.st, it, "chanlen")
